@@ -103,8 +103,8 @@ func init() {
 		Rule:   "cases = (item list of <= 10 (thorough 12) items with many equal weights/values, limit 0..sum+2, tie-breaker none/fewer/new, overflow allowed or not) or (undirected graph on <= 9 vertices: random density, disjoint cliques, complete, edgeless, isolated vertices) drawn from the run seed, every map range ordered by the simulator; oracle = brute force over all subsets / vertex sets; non-trivial = at least one map range was ordered by the simulator with a drawn permutation or an extreme order; distinct = distinct hash of (params, operations, env seed) over such runs",
 		Assume: append([]string{"the weakest claim: apart from map order this is generated input against a brute-force oracle (DESIGN.md C18)"}, seqAssume...)}
 	props["C19"] = &propCfg{ID: "C19", Engine: "B", Pkgs: "goz", Imports: "sync=bsync", Yield: true, Level: "exploration", QuickS: 25, ThorS: 480,
-		Real:   []string{"goz/goz.go (every statement, with a scheduling point inserted before each)", "Go channels, sync.WaitGroup, go statements, defer/recover (real, inside a testing/synctest bubble)"},
-		Stubs:  []string{"which goroutine proceeds at each statement (seeded choice at every quiescent point)", "task bodies (harness: internal yields, gates that stall them, injected panics)", "clock (synctest fake clock)"},
+		Real:   []string{"goz/goz.go (every statement, with a scheduling point inserted before each)", "Go channels, go statements, select, timers, defer/recover (real, inside a testing/synctest bubble)"},
+		Stubs:  []string{"which goroutine proceeds at each statement (seeded choice at every quiescent point)", "task bodies (harness: internal yields, gates that stall them, injected panics)", "clock (synctest fake clock)", "sync.Mutex/RWMutex (channel-based, so that a holder may be parked) and sync.WaitGroup (model with the wake-up-to-recheck window and the real one's misuse panics), sync.Pool (deterministic)"},
 		Rule:   "cases = (limit in {-1,0,1,2,3,5}, handler set or nil, submitter script of Go/Wait over tasks that yield, block on a gate and/or panic with a string, error or struct, followed by limit+1 gate-blocked tasks) drawn from the run seed; a run is non-trivial when >=2 goroutines were parked at once and >=1 switch between goroutines happened; distinct = distinct hash of the sequence of quiescent states (parked goroutines and their statements) and choices",
 		Assume: []string{"testing/synctest (go1.26.8) reports quiescence correctly; between two decisions only the released goroutine and goroutines it unblocks run, each stopping at its next statement"}}
 	props["C09"] = &propCfg{ID: "C09", Engine: "C", Pkgs: "cryptz", Imports: "crypto/rand=scrand,sync=csync", Level: "fault_enumeration", QuickS: 20, ThorS: 480,
